@@ -738,6 +738,17 @@ class Folder:
 
                     return _ew(lambda t: _cp.deepcopy(base[t]), i)
             raise Unfoldable("subscript")
+        if isinstance(node, ast.Compare) and len(node.ops) > 1:
+            # a chained comparison is the conjunction of its links (scalars only: a tensor in the middle has no truth value)
+            left_ = node.left
+            for op_, right_ in zip(node.ops, node.comparators):
+                link_ = self.fold(ast.Compare(left=left_, ops=[op_], comparators=[right_]))
+                if isinstance(link_, list):
+                    raise Unfoldable("chained comparison of tensors")
+                if not link_:
+                    return False
+                left_ = right_
+            return True
         if isinstance(node, ast.Compare) and len(node.ops) == 1 and isinstance(node.ops[0], (ast.In, ast.NotIn)):
             a, b = self.fold(node.left), self.fold(node.comparators[0])
             if not isinstance(b, (list, str, set, frozenset, dict)) or isinstance(a, list):
